@@ -1,4 +1,5 @@
 import MM.Props.C14
+import MM.Props.C11
 
 /-
   C12 (convergence) — in a stable topology with reliable links every agent connected to the origin
@@ -43,6 +44,39 @@ structure FrameInv (t : Net) (o sq : Nat) (L : List RAd) (f : Flight) : Prop whe
   dst : f.dst ∉ f.adv.seenBy
   path : ∀ y, y ∈ f.adv.path → y ∈ f.adv.seenBy
   routes : ∀ r, r ∈ L → ∃ r', r' ∈ f.adv.routes ∧ r'.kind = r.kind ∧ r'.key = r.key
+  sbNodup : f.adv.seenBy.Nodup
+  sbRange : ∀ y, y ∈ f.adv.seenBy → y < t.n
+  pathLen : f.adv.path.length ≤ f.adv.seenBy.length
+
+/-- Pigeonhole: a duplicate-free list of agents below `n` has at most `n` entries. -/
+theorem nodup_length_le (n : Nat) : ∀ (l : List Nat), l.Nodup → (∀ x, x ∈ l → x < n) → l.length ≤ n := by
+  induction n with
+  | zero =>
+    intro l _ h
+    cases l with
+    | nil => simp
+    | cons x t => exact absurd (h x List.mem_cons_self) (Nat.not_lt_zero _)
+  | succ n ih =>
+    intro l hnd h
+    have h1 : (l.filter (fun x => x != n)).length ≤ n := by
+      apply ih _ (hnd.filter _)
+      intro x hx
+      rcases List.mem_filter.1 hx with ⟨hx1, hx2⟩
+      have := h x hx1
+      have : x ≠ n := by simpa using hx2
+      omega
+    by_cases hn : n ∈ l
+    · have := filter_drop_one l (fun _ => true) n hnd hn rfl
+      have hft : l.filter (fun _ => true) = l := List.filter_eq_self.2 (fun _ _ => rfl)
+      simp only [Bool.true_and] at this
+      rw [hft] at this
+      omega
+    · have : l.filter (fun x => x != n) = l := by
+        apply List.filter_eq_self.2
+        intro x hx
+        have : x ≠ n := fun h' => hn (h' ▸ hx)
+        simpa using this
+      rw [this] at h1; omega
 
 structure Conv (lk : Node → Node → Bool) (n o sq : Nat) (L : List RAd) (t : Net) : Prop where
   n_eq : t.n = n
@@ -119,7 +153,9 @@ theorem handle_keeps_copy {mh : Nat} {peers : List Node} {self frm clock : Nat} 
       · exact h
       · have := foldl_storeRoute_keeps_copy (self := self) (frm := frm) (clock := clock) (a := a) a.routes
           { st with seen := (a.origin, a.seq) :: st.seen } h
-        split <;> exact this
+        split
+        · exact this
+        · split <;> exact this
 
 /-- Storing an advertised (non-presence) route leaves a copy at least as recent as the advertisement. -/
 theorem foldl_storeRoute_stores {self frm clock : Nat} {a : Adv} (hp : self ∉ a.path)
@@ -149,14 +185,15 @@ theorem foldl_storeRoute_stores {self frm clock : Nat} {a : Adv} (hp : self ∉ 
 
 /-- `handle` when the advertisement is accepted and there is no hop limit. -/
 theorem handle_new_eq {peers : List Node} {self frm clock : Nat} {a : Adv} {st : NodeSt}
-    (hwd : a.wd = false) (hseen : (a.origin, a.seq) ∉ st.seen) (hsb : self ∉ a.seenBy) :
+    (hwd : a.wd = false) (hseen : (a.origin, a.seq) ∉ st.seen) (hsb : self ∉ a.seenBy)
+    (hwire : a.seenBy.length + 1 ≤ maxWireAgents ∧ a.path.length + 1 ≤ maxWireAgents) :
     handle 0 peers self frm clock a st =
       (a.routes.foldl (storeRoute self frm a clock) { st with seen := (a.origin, a.seq) :: st.seen },
        (fwdTargets peers frm (fwdAdv self a).seenBy).map (fun p => (p, fwdAdv self a)), .new) := by
   unfold handle
   rw [if_neg hseen]
   dsimp only
-  rw [if_neg hsb, if_neg (by simp [hwd]), if_neg (by omega), if_neg (by omega)]
+  rw [if_neg hsb, if_neg (by simp [hwd]), if_neg (by omega), if_neg (by omega), if_neg (by omega)]
 
 theorem mem_eraseIdx_of_ne {α : Type} {l : List α} {pos : Nat} {g f : α} (hg : g ∈ l)
     (hf : l[pos]? = some f) (hne : g ≠ f) : g ∈ l.eraseIdx pos := by
@@ -178,8 +215,9 @@ theorem marked_mono_process {t : Net} {fl : List Flight} {a b : Node} {m : Adv} 
     · exact h
 
 theorem conv_process {lk : Node → Node → Bool} {n o sq : Nat} {L : List RAd} {t : Net}
+    (hn255 : n ≤ 255)
     (hirr : ∀ x, lk x x = false) (hrange : ∀ x p, lk x p = true → p < n)
-    (hC : Conv lk n o sq L t) {fl : List Flight} {a b : Node} {f : Flight}
+    (hC : Conv lk n o sq L t) {fl : List Flight} {a b : Node} {f : Flight} (hbn : b < n)
     (hf : f ∈ t.flight) (hsrc : f.src = a) (hdst : f.dst = b)
     (hsub : ∀ g, g ∈ fl → g ∈ t.flight)
     (hlost : ∀ g, g ∈ t.flight → g ∈ fl ∨ (g.src = a ∧ g.dst = b ∧ keyOf g = keyOf f)) :
@@ -244,7 +282,7 @@ theorem conv_process {lk : Node → Node → Bool} {n o sq : Nat} {L : List RAd}
       · intro g hg hgk
         rw [hflight'] at hg
         have := hC.frames g (hsub g hg) hgk
-        exact ⟨(hmk _).2 this.src, fun y hy => (hmk _).2 (this.seenBy y hy), this.dst, this.path, this.routes⟩
+        exact ⟨(hmk _).2 this.src, fun y hy => (hmk _).2 (this.seenBy y hy), this.dst, this.path, this.routes, this.sbNodup, this.sbRange, this.pathLen⟩
       · intro x hx p hp
         rcases hC.closed x ((hmk x).1 hx) p hp with h | ⟨g, hg, hgk, hgs, hgd⟩
         · exact Or.inl ((hmk p).2 h)
@@ -258,8 +296,20 @@ theorem conv_process {lk : Node → Node → Bool} {n o sq : Nat} {L : List RAd}
     · -- first handling at b: b stores and forwards
       have hsb : b ∉ f.adv.seenBy := hdst ▸ hFI.dst
       have hseen0 : (f.adv.origin, f.adv.seq) ∉ (t.nodes b).seen := by rw [hk']; exact hcached
+      have hlen : f.adv.seenBy.length + 1 ≤ n := by
+        have := nodup_length_le n (b :: f.adv.seenBy) (List.nodup_cons.2 ⟨hsb, hFI.sbNodup⟩)
+          (by
+            intro y hy
+            rcases List.mem_cons.1 hy with hy | hy
+            · rw [hy]; exact hbn
+            · rw [← hC.n_eq]; exact hFI.sbRange y hy)
+        simpa using this
+      have hwire : f.adv.seenBy.length + 1 ≤ maxWireAgents ∧ f.adv.path.length + 1 ≤ maxWireAgents := by
+        have := hFI.pathLen
+        unfold maxWireAgents
+        omega
       have hh := handle_new_eq (peers := peersOf t b) (self := b) (frm := a) (clock := t.clock)
-        (a := f.adv) (st := t.nodes b) hfwd hseen0 hsb
+        (a := f.adv) (st := t.nodes b) hfwd hseen0 hsb hwire
       have hproc_flight : (process { t with flight := fl } a b f.adv).1.flight = fl ++
           ((fwdTargets (peersOf t b) a (fwdAdv b f.adv).seenBy).map (fun p => (p, fwdAdv b f.adv))).map
             (fun (pf : Node × Adv) => ({ src := b, dst := pf.1, adv := pf.2 } : Flight)) := by
@@ -289,9 +339,9 @@ theorem conv_process {lk : Node → Node → Bool} {n o sq : Nat} {L : List RAd}
         rcases List.mem_append.1 hg with hg | hg
         · have := hC.frames g (hsub g hg) hgk
           exact ⟨marked_mono_process this.src, fun y hy => marked_mono_process (this.seenBy y hy),
-            this.dst, this.path, this.routes⟩
+            this.dst, this.path, this.routes, this.sbNodup, this.sbRange, this.pathLen⟩
         · obtain ⟨h1, h2, h3, h4, h5, h6⟩ := hnew_frame g hg
-          refine ⟨h1 ▸ hb_marked, ?_, ?_, ?_, ?_⟩
+          refine ⟨h1 ▸ hb_marked, ?_, ?_, ?_, ?_, ?_, ?_, ?_⟩
           · intro y hy
             rw [h2, fwdAdv_seenBy] at hy
             simp only [List.mem_append, List.mem_singleton] at hy
@@ -311,6 +361,23 @@ theorem conv_process {lk : Node → Node → Bool} {n o sq : Nat} {L : List RAd}
             refine ⟨{ r' with metric := inc16 r'.metric }, ?_, hk1, hk2⟩
             simp only [List.mem_map]
             exact ⟨r', hr', rfl⟩
+          · rw [h2, fwdAdv_seenBy]
+            refine List.nodup_append.2 ⟨hFI.sbNodup, by simp, ?_⟩
+            intro x hx y hy
+            simp only [List.mem_singleton] at hy
+            subst hy
+            intro hxy; subst hxy
+            exact hsb hx
+          · intro y hy
+            rw [h2, fwdAdv_seenBy] at hy
+            rcases List.mem_append.1 hy with hy | hy
+            · exact hFI.sbRange y hy
+            · simp only [List.mem_singleton] at hy
+              rw [hy]; show b < t.n; rw [hC.n_eq]; exact hbn
+          · rw [h2, fwdAdv_path hfwd, fwdAdv_seenBy]
+            have := hFI.pathLen
+            simp only [List.length_cons, List.length_append, List.length_nil]
+            omega
       · intro x hx p hp
         -- was x marked before, or is it b (newly marked)?
         have hx' : Marked t o (o, sq) x ∨ x = b := by
@@ -387,7 +454,7 @@ theorem conv_process {lk : Node → Node → Bool} {n o sq : Nat} {L : List RAd}
     refine ⟨hC.n_eq, hC.mh, hC.links, hctr, hnowd', ?_, ?_, ?_⟩
     · intro g hg hgk
       have := hC.frames g (hsub g (hours g hg hgk)) hgk
-      exact ⟨(hmk _).2 this.src, fun y hy => (hmk _).2 (this.seenBy y hy), this.dst, this.path, this.routes⟩
+      exact ⟨(hmk _).2 this.src, fun y hy => (hmk _).2 (this.seenBy y hy), this.dst, this.path, this.routes, this.sbNodup, this.sbRange, this.pathLen⟩
     · intro x hx p hp
       rcases hC.closed x ((hmk x).1 hx) p hp with h | ⟨g, hg, hgk, hgs, hgd⟩
       · exact Or.inl ((hmk p).2 h)
@@ -403,11 +470,11 @@ theorem conv_process {lk : Node → Node → Bool} {n o sq : Nat} {L : List RAd}
 /-! ### the invariant along a stable schedule -/
 
 theorem conv_step {lk : Node → Node → Bool} {n o sq : Nat} {L : List RAd} {s : Net} {op : Op}
-    (hirr : ∀ x, lk x x = false) (hrange : ∀ x p, lk x p = true → p < n)
+    (hn255 : n ≤ 255) (hirr : ∀ x, lk x x = false) (hrange : ∀ x p, lk x p = true → p < n)
     (hC : Conv lk n o sq L s) (hst : stable op = true) : Conv lk n o sq L (step s op) := by
   have hT : Conv lk n o sq L (tick s) :=
     ⟨hC.n_eq, hC.mh, hC.links, hC.ctr, hC.nowd,
-      fun f hf hk => let h := hC.frames f hf hk; ⟨h.src, h.seenBy, h.dst, h.path, h.routes⟩,
+      fun f hf hk => let h := hC.frames f hf hk; ⟨h.src, h.seenBy, h.dst, h.path, h.routes, h.sbNodup, h.sbRange, h.pathLen⟩,
       hC.closed, hC.stored⟩
   cases op with
   | connect a b => cases hst
@@ -421,11 +488,13 @@ theorem conv_step {lk : Node → Node → Bool} {n o sq : Nat} {L : List RAd} {s
   | deliver a b i =>
     simp only [step, stepCore]
     split
-    · split
+    · rename_i hcond
+      have hbn : b < n := by have := hcond.2.1; rw [← hC.n_eq]; exact this
+      split
       · exact hT
       · rename_i pos f hp
         obtain ⟨hget, hs, hd⟩ := pickFlight_spec hp
-        refine conv_process hirr hrange hT (List.mem_of_getElem? hget) hs hd
+        refine conv_process hn255 hirr hrange hT hbn (List.mem_of_getElem? hget) hs hd
           (fun g hg => List.mem_of_mem_eraseIdx hg) ?_
         intro g hg
         by_cases hgf : g = f
@@ -435,11 +504,13 @@ theorem conv_step {lk : Node → Node → Bool} {n o sq : Nat} {L : List RAd} {s
   | dup a b i =>
     simp only [step, stepCore]
     split
-    · split
+    · rename_i hcond
+      have hbn : b < n := by have := hcond.2.1; rw [← hC.n_eq]; exact this
+      split
       · exact hT
       · rename_i pos f hp
         obtain ⟨hget, hs, hd⟩ := pickFlight_spec hp
-        exact conv_process (fl := (tick s).flight) hirr hrange hT (List.mem_of_getElem? hget) hs hd
+        exact conv_process (fl := (tick s).flight) hn255 hirr hrange hT hbn (List.mem_of_getElem? hget) hs hd
           (fun g hg => hg) (fun g hg => Or.inl hg)
     · exact hT
   | announce c hint =>
@@ -490,7 +561,7 @@ theorem conv_step {lk : Node → Node → Bool} {n o sq : Nat} {L : List RAd} {s
           · exact absurd hgk (hnew g hg).2
         have := hC.frames g hg' hgk
         exact ⟨by unfold Marked; rw [hseen]; exact this.src,
-          fun y hy => by unfold Marked; rw [hseen]; exact this.seenBy y hy, this.dst, this.path, this.routes⟩
+          fun y hy => by unfold Marked; rw [hseen]; exact this.seenBy y hy, this.dst, this.path, this.routes, this.sbNodup, this.sbRange, this.pathLen⟩
       · intro x hx p hp
         have hx' : Marked s o (o, sq) x := by unfold Marked at hx ⊢; rw [hseen] at hx; exact hx
         rcases hC.closed x hx' p hp with h | ⟨g, hg, hgk, hgs, hgd⟩
@@ -502,13 +573,13 @@ theorem conv_step {lk : Node → Node → Bool} {n o sq : Nat} {L : List RAd} {s
     · exact hT
 
 theorem conv_run {lk : Node → Node → Bool} {n o sq : Nat} {L : List RAd}
-    (hirr : ∀ x, lk x x = false) (hrange : ∀ x p, lk x p = true → p < n)
+    (hn255 : n ≤ 255) (hirr : ∀ x, lk x x = false) (hrange : ∀ x p, lk x p = true → p < n)
     (s : Net) (ops : List Op) (hC : Conv lk n o sq L s) (hst : ∀ op, op ∈ ops → stable op = true) :
     Conv lk n o sq L (run s ops) := by
   induction ops generalizing s with
   | nil => exact hC
   | cons op t ih =>
-    exact ih (step s op) (conv_step hirr hrange hC (hst op List.mem_cons_self))
+    exact ih (step s op) (conv_step hn255 hirr hrange hC (hst op List.mem_cons_self))
       (fun o' ho' => hst o' (List.mem_cons_of_mem _ ho'))
 
 /-- Two advertisements of one announcement with the same sequence number are the same one. -/
@@ -582,7 +653,7 @@ theorem conv_announce (s0 : Net) (o : Node) (hint : List (List RAd)) (m : Adv)
         intro h
         have := (mem_peersOf hp).1
         rw [h, hirr] at this; cases this
-      refine ⟨Or.inl rfl, ?_, ?_, ?_, ?_⟩
+      refine ⟨Or.inl rfl, ?_, ?_, ?_, ?_, ?_, ?_, ?_⟩
       · intro y hy
         simp only [hA.seenBy, List.mem_singleton] at hy
         exact Or.inl hy
@@ -592,6 +663,11 @@ theorem conv_announce (s0 : Net) (o : Node) (hint : List (List RAd)) (m : Adv)
         simp only [hA.seenBy]; exact hy
       · intro r hr
         exact ⟨r, hr, rfl, rfl⟩
+      · simp only [hA.seenBy]; simp
+      · intro y hy
+        simp only [hA.seenBy, List.mem_singleton] at hy
+        rw [hy]; show o < (step s0 (.announce o hint)).n; rw [step_n]; exact ho
+      · simp only [hA.path, hA.seenBy]; exact Nat.le_refl _
   · intro x hx p hp
     have hxo := hnotmarked x hx
     subst hxo
@@ -628,7 +704,7 @@ theorem conv_quiescent {lk : Node → Node → Bool} {n o sq : Nat} {L : List RA
     domain / forward route it carries, with origin `o` and a sequence number ≥ `m.seq`. -/
 theorem C12_converges (s0 : Net) (o : Node) (hint : List (List RAd)) (ops : List Op) (m : Adv)
     (hm : m ∈ announceAdvs o (s0.nodes o) hint)
-    (ho : o < s0.n) (hmh : s0.maxHops = 0)
+    (ho : o < s0.n) (hn255 : s0.n ≤ 255) (hmh : s0.maxHops = 0)
     (hirr : ∀ x, linked s0 x x = false) (hrange : ∀ x p, linked s0 x p = true → p < s0.n)
     (hfresh : ∀ x sq, (s0.nodes o).seq < sq → (o, sq) ∉ (s0.nodes x).seen)
     (hnoold : ∀ f, f ∈ s0.flight → f.adv.origin = o → f.adv.seq ≤ (s0.nodes o).seq)
@@ -640,7 +716,7 @@ theorem C12_converges (s0 : Net) (o : Node) (hint : List (List RAd)) (ops : List
       ∀ r, r ∈ m.routes → r.kind ≠ 3 →
         ∃ e, e ∈ ((run (step s0 (.announce o hint)) ops).nodes x).tab ∧ CopyOf o m.seq r e := by
   intro x hx hxo
-  have hC := conv_run hirr hrange _ ops
+  have hC := conv_run hn255 hirr hrange _ ops
     (conv_announce s0 o hint m hm ho hmh hirr hrange hfresh hnoold hnowd) hst
   have hmk := conv_quiescent hC hquiet x hx
   rcases hmk with hmk | hmk
@@ -650,7 +726,7 @@ theorem C12_converges (s0 : Net) (o : Node) (hint : List (List RAd)) (ops : List
 /-- Every local route of `o` travels in one of the advertisements, so when all of them have
     quiesced every connected agent holds every CIDR / domain / forward route `o` announces. -/
 theorem C12_converges_all (s0 : Net) (o : Node) (hint : List (List RAd)) (ops : List Op)
-    (ho : o < s0.n) (hmh : s0.maxHops = 0)
+    (ho : o < s0.n) (hn255 : s0.n ≤ 255) (hmh : s0.maxHops = 0)
     (hirr : ∀ x, linked s0 x x = false) (hrange : ∀ x p, linked s0 x p = true → p < s0.n)
     (hfresh : ∀ x sq, (s0.nodes o).seq < sq → (o, sq) ∉ (s0.nodes x).seen)
     (hnoold : ∀ f, f ∈ s0.flight → f.adv.origin = o → f.adv.seq ≤ (s0.nodes o).seq)
@@ -671,7 +747,7 @@ theorem C12_converges_all (s0 : Net) (o : Node) (hint : List (List RAd)) (ops : 
     have := hquiet f hf hkf.1
     have := hA.seq_gt
     omega
-  obtain ⟨_, h2⟩ := C12_converges s0 o hint ops m hm ho hmh hirr hrange hfresh hnoold hnowd hst hq x hx hxo
+  obtain ⟨_, h2⟩ := C12_converges s0 o hint ops m hm ho hn255 hmh hirr hrange hfresh hnoold hnowd hst hq x hx hxo
   obtain ⟨e, he, h1, h2', h3, h4⟩ := h2 r hrm hk
   exact ⟨e, he, h1, h2', h3, Nat.lt_of_lt_of_le hA.seq_gt h4⟩
 
@@ -736,7 +812,7 @@ theorem nowd_run (s : Net) (ops : List Op) (h0 : ∀ f, f ∈ s.flight → f.adv
       | old h => exact h0 f h
       | ann hint hop ha hd hadv => exact (mem_announceAdvs hadv).wd
       | wdr hop ha hcidr hd hadv => exact absurd hop (hnw op List.mem_cons_self _)
-      | fwd a m hm hl ha hb hd hne hns hself hseen hsb hlim hadv =>
+      | fwd a m hm hl ha hb hd hne hns hself hseen hsb hlim hwire hadv =>
         rw [hadv, fwdAdv_wd]; exact h0 _ hm
       | rep ord hop ha hb hl hadv => exact (mem_replayAdvs hadv).wd
     · intro o ho; exact hnw o (List.mem_cons_of_mem _ ho)
@@ -746,7 +822,7 @@ theorem nowd_run (s : Net) (ops : List Op) (h0 : ∀ f, f ∈ s.flight → f.adv
     (C14), not a hypothesis. -/
 theorem C12_converges_run (n : Nat) (L : Node → List RAd) (pre ops : List Op) (o : Node)
     (hint : List (List RAd))
-    (ho : o < n) (hb : benignRun (init n 0 L) pre = true)
+    (ho : o < n) (hn255 : n ≤ 255) (hb : benignRun (init n 0 L) pre = true)
     (hnw : ∀ op, op ∈ pre → ∀ a, op ≠ .withdraw a)
     (hst : ∀ op, op ∈ ops → stable op = true)
     (hquiet : ∀ f, f ∈ (run (step (run (init n 0 L) pre) (.announce o hint)) ops).flight →
@@ -760,7 +836,8 @@ theorem C12_converges_run (n : Nat) (L : Node → List RAd) (pre ops : List Op) 
   have hn : (run (init n 0 L) pre).n = n := run_n _ _
   have hloc : ((run (init n 0 L) pre).nodes o).locals = L o := by
     rw [locals_run]; exact initNode_locals o (L o)
-  have := C12_converges_all (run (init n 0 L) pre) o hint ops (by rw [hn]; exact ho) (run_maxHops _ _)
+  have := C12_converges_all (run (init n 0 L) pre) o hint ops (by rw [hn]; exact ho) (by rw [hn]; exact hn255)
+    (run_maxHops _ _)
     (by
       intro x
       cases h : linked (run (init n 0 L) pre) x x with
